@@ -179,6 +179,37 @@ def run(repo):
                          'lp_export leaves the loop over the rows early (`%s`) for some rows: a skipped row is missing from '
                          'the file -- also a row without coefficients, which is the constraint 0 <= b_i and makes the '
                          'program infeasible when b_i < 0' % type(skips[0]).__name__.lower(), repo.where(fi, rl), P))
+    # (j) every stored coefficient of a row is written: the generator of the `x<j>` terms is not filtered (a filter
+    #     on exact zero is the only one that leaves the described program unchanged)
+    def _zero_test(t):
+        if isinstance(t, ast.Name):
+            return True                                   # `if coeff`
+        if isinstance(t, ast.Compare) and len(t.ops) == 1 and isinstance(t.ops[0], (ast.NotEq, ast.Eq)):
+            sides = [t.left, t.comparators[0]]
+            return any(isinstance(s_, ast.Constant) and s_.value in (0, 0.0) and not isinstance(s_.value, bool)
+                       for s_ in sides)
+        return False
+    filt, nterm = [], 0
+    for n in ast.walk(ast.Module(body=rl.body, type_ignores=[])):
+        if isinstance(n, (ast.ListComp, ast.GeneratorExp)) and any('x{}' in c_ for c_ in _str_consts(n.elt)):
+            nterm += 1
+            for g_ in n.generators:
+                filt += [t for t in g_.ifs if not _zero_test(t)]
+        elif isinstance(n, ast.For) and any('x{}' in c_ for c_ in _str_consts(ast.Module(body=n.body, type_ignores=[]))):
+            nterm += 1
+            for x in ast.walk(ast.Module(body=n.body, type_ignores=[])):
+                if isinstance(x, ast.If) and not _zero_test(x.test) and \
+                        (own_jumps(x.body) or any('x{}' in c_ for c_ in _str_consts(x))):
+                    filt.append(x.test)
+    if nterm == 0:
+        raise AnalysisError('lp_export: the generator of the `x<j>` terms of a row was not found in the row loop')
+    ok = not filt
+    res.inst({'lp_export': 'row terms', 'every_stored_coefficient_written': ok}, ok)
+    if not ok:
+        res.fail(Finding(RULE, fi.fq, 'row coefficients filtered',
+                         'lp_export writes a coefficient of a row only when `%s` holds: a stored coefficient that fails '
+                         'the test is part of the solved program but missing from the file (only a test against exact '
+                         'zero leaves the described program unchanged)' % ntext(filt[0])[:60], repo.where(fi, rl), P))
     # (e) the Bounds section has one line per column, unconditionally
     bloops = []
     for n in walk_no_nested(fi.node):
